@@ -71,12 +71,13 @@ def run_soc_config(cfg, seed, tier):
     """C13's busreal.* histories (real wishbone interfaces, add_master / add_slave with fixed, automatic and non power-of-two
     regions, the REAL InterconnectShared / Crossbar built by SoCBusHandler.do_finalize, slave-select predicates read back from
     the built Decoder(s) and evaluated over the address space).  Here only the routing side counts: no address selects two slaves,
-    every decoder accepts exactly its window."""
+    every decoder accepts exactly its window, and
+    where soc.py builds a point-to-point connection instead (1 master, 1 slave) no cycle outside the window reaches the slave."""
     from checks import c13_soc_alloc as _c13
     r = _c13._run_config((cfg[0][len(SOC_PREFIX):],) + tuple(cfg[1:]), seed, tier)
     r["cfg"] = cfg[0]
     r.pop("digests", None)
-    r["violations"] = [v for v in r.get("violations", []) if v["rule"].startswith(("decode.", "overlap."))]
+    r["violations"] = [v for v in r.get("violations", []) if v["rule"].startswith(("decode.", "overlap.", "p2p."))]
     return r
 
 
